@@ -179,3 +179,8 @@ class PayloadCopyUnit(CodecUnit):
 
 
 UNITS = [r, s, m, WireLemmas(), LemmaUnit('C02.once lemma', once_lemmas), AssemblyUnit(), SendGlue(), PayloadCopyUnit()]
+
+
+def extra_checks(tier, seed, pool):
+    from .recvunit import bounded_histories
+    return bounded_histories('C02', tier)
